@@ -62,6 +62,10 @@ CHECKS = {
          "the complete flag space is pushed through the real flag-to-ignore-set mapping, and on a fixed workspace that triggers 19 diagnostic types every one/two/three-flag deviation from all-on and all-off, the master switch and every subset <=2 of file ignore rules (literal, folder, regex, non-matching, invalid regex) is run on the real server through initializationOptions, a later didChangeConfiguration and luahelper.json; the shown diagnostics must be exactly the all-enabled ones that the configuration does not exclude; malformed patterns must not take the server down",
          "trusted: the filter semantics as stated by the property and docs/manual/config.md (substring or Go regex on the file path); the workspace in checks/c17.go; the check reports a vacuous baseline if fewer than 14 types appear",
          "DESIGN.md §4 C17"),
+ 'C18': ("bounded-exhaustive enumeration of directory trees x requiring file x module string x call form x separator x one create/delete event on the real server; three-valued reference resolver plus cross-feature consistency",
+         "every subset of <=3/4 of six candidate module files, two requiring locations, seven module strings, three call forms and both separators, before and after one watched create/delete event: the type-6 diagnostic, go-to-definition and hover on the string and the file the analysis loaded must agree, modules existing at the documented path must resolve to a file with that trailing path, modules for which no such file exists must be reported, and the verdict must flip at once after the event",
+         "trusted: the documented mapping as stated by the property (name.lua then name/init.lua relative to the root or the requiring file's directory); fuzzy suffix matches, equally ranked duplicates (C09's subject), other-separator strings and native .so modules are don't-care",
+         "DESIGN.md §4 C18"),
 }
 NOT_YET = "check not built yet in this round (planned: see DESIGN.md section 4); no claim is made"
 
